@@ -45,6 +45,8 @@ def main():
     jobs = [dict(kind="arith", seed="%d/%s/%s/%d" % (common.seed(), PROP, be, s), backend=be, n=n)
             for be in FIELDS for s in range(1 if tier == "quick" else 4)]
     jobs.append(dict(kind="select", seed="%d/%s/sel" % (common.seed(), PROP)))
+    for sp in ([10000, 257, 65537] if tier == "quick" else [10000, 257, 65537, 1031, 8191, 131071, 10007]):
+        jobs.append(dict(kind="smallfield", seed="%d/%s/small/%d" % (common.seed(), PROP, sp), p=sp, ncoef=20000 if tier == "quick" else 60000, nmsg=6 if tier == "quick" else 40))
     R = common.Run(PROP, "exploration", RULE)
     for job, res, err in shard.run_jobs("vf.checks.C20", "worker", jobs, timeout=3600, nproc=16, shims=("flatbuffers",)):
         if err:
@@ -61,7 +63,57 @@ def main():
 
 
 def worker(job):
+    if job["kind"] == "smallfield":
+        return smallfield_worker(job)
     return select_worker(job) if job["kind"] == "select" else arith_worker(job)
+
+
+def smallfield_worker(job):
+    """The subset-sum hash over a small field (the toy backend's modulus 10000, small primes): here the rejection sampling of the
+    coefficients actually rejects, and hits every boundary (a draw equal to the modulus, one below, one above) within a few hundred
+    positions - on the 254-bit fields no run ever would.  Long messages, coefficient by coefficient."""
+    from vf.ref import poseidon as ref
+    p = job["p"]
+    rt = boot.attach("pysnark.nobackend", modulus=p)
+    from vf import recorder
+    import pysnark.ggh_hash as gh
+    from pysnark.runtime import PrivVal
+    from pysnark.boolean import PrivValBool
+    R = common.Run(PROP, "exploration", RULE)
+    N = boot.Neutral()
+    rnd = random.Random(job["seed"])
+    if gh.PRIME != p:
+        R.violation("subset-sum-wrong-field", "ggh_hash works modulo %d, backend field is %d" % (gh.PRIME, p), backend="nobackend")
+        return R.export()
+    rejected = 0
+    for i in range(job["ncoef"]):
+        got = gh.SHA512_prng(i)
+        want = ref.prng(i, p)
+        R.count("small_field_coefficients_compared")
+        it0 = int.from_bytes(__import__("hashlib").sha512(__import__("struct").pack("=QQ", i, 0)).digest(), "little") % (1 << p.bit_length())
+        rejected += it0 >= p
+        if it0 == p:
+            R.count("small_field_first_draw_equal_to_modulus")
+        if got != want or not 0 <= got < p:
+            R.case(cell="small-field|p%d|coefficient" % p, key=("coef", p, i))
+            R.violation("subset-sum-coefficient-differs", "coefficient %d over the field of %d elements is %d, reference %d" % (i, p, got, want), backend="nobackend", p=p, index=i)
+            break
+    R.count("small_field_first_draws_rejected", rejected)
+    R.case(cell="small-field|p%d|coefficient" % p, key=("coefs", p, job["ncoef"]), nontrivial=rejected > 0)
+    for n in range(job["nmsg"]):
+        N(modulus=p)
+        L = rnd.choice([64, 512, 2048, job["ncoef"]])
+        bits = [rnd.randint(0, 1) for _ in range(L)]
+        want = ref.subset_sum(bits, p)
+        R.count("subset_sum_compared")
+        R.case(cell="small-field|p%d|len%d" % (p, L), key=("ggh", p, tuple(bits)))
+        if gh.ggh_hash(bits) != want:
+            R.violation("subset-sum-differs", "plain subset-sum hash of a %d-bit message over the field of %d elements differs from the reference" % (L, p), backend="nobackend", p=p, bits=bits)
+        if L <= 512:
+            sec = gh.ggh_hash([PrivValBool(b) if k % 2 else PrivVal(b) for k, b in enumerate(bits)])
+            if sec.value % p != want or (sec.value - recorder.ev(sec.lc)) % p:
+                R.violation("subset-sum-differs", "traced subset-sum hash %s, reference %s (field of %d elements)" % (sec.value % p, want, p), backend="nobackend", p=p, bits=bits)
+    return R.export()
 
 
 def arith_worker(job):
@@ -166,8 +218,14 @@ def arith_worker(job):
                 mvals.append(v % p)
         del calls[:]
         nin = len(ins)
-        out = ph.poseidon_hash(ins)
-        got = [x.value % p for x in out]
+        try:
+            out = ph.poseidon_hash(ins)
+            got = [x.value % p for x in out]
+        except Exception as e:  # noqa - a list of secret values of whatever classes is a valid message
+            R.case(cell="%s|sponge|raised" % be, key=(be, "sponge", tuple(mvals)))
+            R.violation("sponge-raises:" + type(e).__name__, "poseidon_hash raised %s: %s on a message of %d secret values of classes %s" % (
+                type(e).__name__, str(e)[:100], len(ins), sorted(set(type(x).__name__ for x in ins))), backend=be, message=mvals)
+            continue
         if len(ins) != nin:
             R.violation("hash-mutates-its-input", "poseidon_hash changed the caller's list: %d -> %d items" % (nin, len(ins)), backend=be, message=mvals)
 
